@@ -383,7 +383,7 @@ func c13Traces(max int) []confx.Trace {
 	var all []confx.Trace
 	for _, c := range []cf{{2, 2}, {1, 1}, {3, 2}} {
 		p := &c13Params{Name: "conformance", MaxMembers: 4, Opts: simcluster.Opts{N: c.n0, Replicas: c.r, WriteQ: 1, ReadQ: 1, Partitions: 7}}
-		usable := func(e clustermc.Ev) bool { return e.K == "join" || e.K == "leave" || e.K == "crash" }
+		usable := func(e clustermc.Ev) bool { return e.K == "join" || e.K == "leave" || e.K == "crash" || e.K == "rejoin" }
 		var paths [][]clustermc.Ev
 		for _, e := range c13New(p).Events() {
 			if !usable(e) {
